@@ -18,7 +18,7 @@ func init() {
 			"only on the `copied[d]` edge or when it is an import declaration — every other path of the loop body writes the declaration's source; (copied-writers) the `copied` set is written only by GetPrevDecl " +
 			"and MarkStructCopied, and GetPrevDecl marks exactly the declaration it returns; (body-flows) in both resolver layouts the result of every GetMethodBody call is either discarded for the root accessor " +
 			"only, or reaches the ImplementationStr of a Resolver value whose PrevDecl and Comment come from GetPrevDecl / GetMethodComment for the same (struct, method) arguments, and that Resolver is appended to " +
-			"the file; (imports-flow) File.imports is assigned from ExistingImports of that file's own name before it is rendered, and File.Imports reserves every import with its alias.",
+			"the file; (imports-flow) File.imports is assigned from ExistingImports of that file's own name before it is rendered, and File.Imports reserves every import with its alias; (exact-match) GetPrevDecl matches method and receiver names by plain equality; (comment-lines-prefixed) the helper that re-emits a preserved doc comment prefixes every line, blank lines included.",
 		NotDecided:  "verbatim preservation of bodies and comments (byte offsets in getSource), validity of the emitted file, repeated regeneration (idempotence, see F13) — value-level / dynamic",
 		Assumptions: []string{"go/packages gives the previous resolver package's syntax; text/template renders what the Resolver values carry"},
 	})
@@ -35,6 +35,7 @@ func runC19(c *Ctx) {
 	c19ExactMatch(c)
 	c19BodyFlows(c)
 	c19Imports(c)
+	c19PrefixLines(c)
 }
 
 func isCopiedLookup(v ssa.Value) bool {
@@ -444,5 +445,105 @@ func c19ExactMatch(c *Ctx) {
 	}
 	if n == 0 {
 		c.R.Fail("exact-match: GetPrevDecl never returns a declaration")
+	}
+}
+
+// c19PrefixLines: a preserved resolver doc comment is re-emitted through the template helper prefixLines("// ", text).  Every
+// line of the result has to carry the prefix, blank lines included: a bare empty line splits the comment into two comment
+// groups, only the last of which stays attached to the method, and the next regeneration drops the detached part.  Two
+// shapes are recognised and decided — `prefix + strings.ReplaceAll(s, "\n", "\n"+prefix)` and split / per-line store /
+// strings.Join; for any other shape the rule records a note and decides nothing.
+func c19PrefixLines(c *Ctx) {
+	c.R.Rule("comment-lines-prefixed", "templates.prefixLines puts the prefix in front of every line it emits, blank lines included (decided for the ReplaceAll shape and the split/join shape; other shapes are noted, not judged)", 0)
+	fn := c.fn(modPath("codegen/templates"), "prefixLines")
+	if fn == nil {
+		return
+	}
+	if len(fn.Params) != 2 {
+		c.R.Note("prefixLines", c.pos(fn.Pos()), "unexpected signature; not judged")
+		return
+	}
+	prefix := ssa.Value(fn.Params[0])
+	startsWithPrefix := func(v ssa.Value) bool {
+		for _, d := range an.Defs(v) {
+			bo, ok := d.(*ssa.BinOp)
+			if !ok || bo.Op != token.ADD {
+				return false
+			}
+			// leftmost operand of the concatenation chain
+			l := ssa.Value(bo)
+			for {
+				b2, ok := l.(*ssa.BinOp)
+				if !ok || b2.Op != token.ADD {
+					break
+				}
+				l = b2.X
+			}
+			if !(l == prefix || an.SameVar(l, prefix)) {
+				return false
+			}
+		}
+		return true
+	}
+	newlineThenPrefix := func(v ssa.Value) bool {
+		bo, ok := v.(*ssa.BinOp)
+		if !ok || bo.Op != token.ADD {
+			return false
+		}
+		s, isC := an.ConstString(bo.X)
+		return isC && s == "\n" && (bo.Y == prefix || an.SameVar(bo.Y, prefix))
+	}
+	decided := false
+	for _, r := range an.Returns(fn) {
+		if fn.Recover != nil && r.Block() == fn.Recover {
+			continue
+		}
+		for _, d := range an.Defs(an.ReturnedValue(r, 0)) {
+			// shape A
+			if bo, ok := d.(*ssa.BinOp); ok && bo.Op == token.ADD {
+				if call, isCall := bo.Y.(*ssa.Call); isCall && strings.HasPrefix(an.CalleeOf(call).FullName(), "strings.Replace") && (bo.X == prefix || an.SameVar(bo.X, prefix)) {
+					decided = true
+					args := call.Call.Args
+					old, isC := an.ConstString(args[1])
+					ok := isC && old == "\n" && newlineThenPrefix(args[2])
+					if an.CalleeOf(call).FullName() == "strings.Replace" {
+						n, isN := an.ConstInt(args[3])
+						ok = ok && isN && n < 0
+					}
+					c.R.Check(ok, "prefixLines/every-line", c.ipos(call), "first line prefixed, every newline followed by the prefix", "not every line of a re-emitted doc comment gets the comment prefix: the comment falls apart and loses its detached part at the next regeneration")
+					continue
+				}
+			}
+			// shape B
+			if call, ok := d.(*ssa.Call); ok && an.CalleeOf(call).FullName() == "strings.Join" {
+				lines := call.Call.Args[0]
+				sep, sepC := an.ConstString(call.Call.Args[1])
+				nst, bad := 0, ""
+				for _, b := range fn.Blocks {
+					for _, in := range b.Instrs {
+						st, isSt := in.(*ssa.Store)
+						if !isSt {
+							continue
+						}
+						ia, isIA := st.Addr.(*ssa.IndexAddr)
+						if !isIA || !an.SameVar(ia.X, lines) {
+							continue
+						}
+						nst++
+						if !startsWithPrefix(st.Val) {
+							bad = "the line stored at " + c.ipos(st) + " does not start with the prefix"
+						}
+					}
+				}
+				if nst == 0 || !sepC || sep != "\n" {
+					continue
+				}
+				decided = true
+				c.R.Check(bad == "", "prefixLines/every-line", c.ipos(call), sprintf("%d per-line stores, each prefixed", nst), bad+": a re-emitted doc comment with an empty line falls apart into two comment groups and loses the detached part at the next regeneration")
+			}
+		}
+	}
+	if !decided {
+		c.R.Note("prefixLines/every-line", c.pos(fn.Pos()), "shape not recognised (neither ReplaceAll nor split/join); not judged")
 	}
 }
